@@ -110,6 +110,14 @@ def generate(seed, tier="quick"):
     for p in prep:
         if p["op"] == "group" and p["view"][0][1]["t"] == "list":
             p["view"][0][1]["v"] = [o.randrange(64) for _ in range(o.randint(1, 3))]
+    names_ = sorted({p["name"] for p in prep if p["op"] == "group"})
+    if names_ and o.random() < 0.4:
+        # a group made from another group's view, and a group extended by a second call: the stored index arrays of
+        # the groups may then alias each other or be writable, which the later set_ncomp calls must not care about
+        src = o.choice(names_)
+        if o.random() < 0.7:
+            prep.append({"op": "group", "view": [["branch", {"t": "int", "v": o.randrange(64)}]], "name": src})  # src assembled in steps
+        prep.append({"op": "group", "view": [["group", src]], "name": o.choice([n_ for n_ in ["g1", "g2", "g3"] if n_ != src])})
     calls = []
     for _ in range(o.randint(1, 5)):
         k = o.random()
@@ -152,6 +160,24 @@ def apply_prep(w, prep, start=0):
     return i
 
 
+def loc_probes(w, i):
+    """Read-only `loc` views on every branch, checked against the reference view algebra: positions along a branch
+    must be resolved against the *current* discretisation of all branches, before and after every set_ncomp."""
+    from .c11 import probe_view
+
+    if w.stopped or w.violations:
+        return
+    before = len(w.violations)
+    for b_ in range(len(w.ref.ncomp_per_branch)):
+        for x in (0.0, 0.37, 1.0):
+            probe_view(w, {"view": [["branch", {"t": "int", "v": b_}], ["loc", x]]}, i)
+    probe_view(w, {"view": [["loc", 1.0]]}, i)
+    probe_view(w, {"view": [["loc", 0.0]]}, i)
+    for v in w.violations[before:]:
+        v["message"] = "loc view around set_ncomp: " + v["message"]
+        v["oracle"] = "setncomp_surroundings"
+
+
 def execute(program):
     w = World(program["shape"])
     w.sim_ms = 0.0
@@ -191,6 +217,7 @@ def execute(program):
     for row in range(w.ref.n):
         branch_total[w.ref.branch[row]] = branch_total.get(w.ref.branch[row], 0.0) + w.ref.cols["length"][row]
     n_set = 0
+    loc_probes(w, i)  # before any set_ncomp (whatever the library remembers about the discretisation is now warm)
     for c in program["calls"]:
         if w.stopped or w.violations:
             break
@@ -261,6 +288,7 @@ def execute(program):
                 d_ = conform(w.ref, w.m)
                 if d_:
                     w.violate("setncomp_surroundings", "after set_ncomp calls inside a loop over cell.branches: " + "; ".join(d_[:4]), i)
+                loc_probes(w, i)
         elif c["op"] == "set_ncomp_all":
             before = snap.snapshot(w.m, with_xyzr=False)
             try:
@@ -288,6 +316,7 @@ def execute(program):
                     v["oracle"] = "setncomp_surroundings"
             if c["op"] == "set_ncomp" and out.get("outcome") == "accepted":
                 n_set += 1
+                loc_probes(w, i)
                 b = out.get("branch")
                 ncb = w.ref.ncomp_per_branch
                 if any(ncb[p] < max(ncb) for p in set(w.ref.parents) if p >= 0):
